@@ -431,6 +431,12 @@ class NM(NumericDataType):
             raise ValueError('Invalid value for a NM data')
         super(NM, self).__init__(value, 16, validation_level)
 
+    def to_er7(self, encoding_chars=None):
+        # plain decimal notation: str(Decimal('0.0000001')) would give '1E-7', which is not an HL7 number
+        if self.value is not None and self.value.is_finite():
+            return '{0:f}'.format(self.value)
+        return super(NM, self).to_er7(encoding_chars)
+
 
 class SI(NumericDataType):
     """
